@@ -521,7 +521,7 @@ class WsgiApplication(HttpBase):
             if 'Content-Length' in p_ctx.transport.resp_headers:
                 del p_ctx.transport.resp_headers['Content-Length']
         else:
-            p_ctx.out_string = [''.join(p_ctx.out_string)]
+            p_ctx.out_string = [b''.join(p_ctx.out_string)]
 
         try:
             len(p_ctx.out_string)
